@@ -45,6 +45,9 @@ MEEK_ARITH = [
     {'arithmetic': 'fixed', 'precision': 5, 'display': 2},
     {'arithmetic': 'fixed', 'precision': 9},
 ]
+#  very tight omega at very high precision: every iteration round needs hundreds of distributions
+MEEK_DEEP = [{'rule': 'meek', 'arithmetic': 'guarded', 'precision': 150, 'guard': 150, 'omega': 140},
+             {'rule': 'warren', 'arithmetic': 'fixed', 'precision': 130, 'omega': 120}]
 
 
 def meek_menu(full=True, rules=('meek', 'warren')):
